@@ -138,7 +138,7 @@ PROPS["C08"] = dict(
 PROPS["C09"] = dict(
     targets=[dict(name="C09", src="vp/props/C09.cpp", maxlen=3 + 8*6, kinds=["rc"])],
     quick=dict(cases=2000, floor=16000),
-    thorough=dict(cases=12000, floor=100000),
+    thorough=dict(cases=120000, floor=1000000),
     level="fault_enumeration",
     level_text=("Fault enumeration: for each generated history (<= 6 operations of the C08 machine) a fault-free dry run counts the events (allocations, element default/copy/move "
                 "constructions, element copy/move assignments); the history is then re-run once per injection point k (all k when there are at most 12, else a spread sample of 12; the "
